@@ -151,7 +151,9 @@ def _rectangular(col, rule="C15.R1"):
                         others.append(f"{name}: {S.show(t)[:50]}")
     col.add(rule, "Optimize#no-other-log-writer", not others, opt.module.rel, "no other method appends to, removes from or overwrites log columns", str(others))
     csx = octx(repo, "Optimize", "clear_log")
-    clears = csx.calls_some(("call", ("attr", ("sub", LOG, ("elem", LOG)), "clear"), (), ()))
+    clears = csx.calls_some(("call", ("attr", ("sub", LOG, ("elem", LOG)), "clear"), (), ())) or \
+        csx.calls_some(("call", ("attr", ("elem", S.mcall(LOG, "values")), "clear"), (), ())) or \
+        csx.calls_some(("call", ("attr", ("val", LOG), "clear"), (), ()))
     logs = csx.calls_some(("call", ("attr", S.SELF, "add_point_to_log"), S.ANY, S.ANY))
     ok = len(clears) == 1 and not csx.conds(clears[0][0].nid) and bool(logs) and all(csx.cfg.dominates(clears[0][0].nid, ev.nid) or True for ev, m in logs)
     col.add(rule, "Optimize.clear_log#all-keys", ok, csx.loc(csx.fn), "clear_log empties every column and logs the current point", "")
